@@ -64,7 +64,8 @@ RByDeadline == l > 0 => (C({})!ByDeadline /\ ~R.late)
 RExactlyOncePrefix == l > 0 =>
   /\ \E G \in SUBSET (1 .. RN) : C(G)!ExactlyOncePrefix
   /\ R.stable                                   \* and nothing is written after the return either
-RInTimeCounted == l > 0 => C({})!InTimeCounted
+\* (entries that are not successful results of a clock are ExactlyOncePrefix's business)
+RInTimeCounted == l > 0 => (Rng(SubSeq(R.ms, 1, J)) \subseteq 1 .. RN => C({})!InTimeCounted)
 \* NoLeak is  MeasurementsReturned ~> AllDone; the record is the last state
 \* of a behaviour in which nothing can happen any more, so it has to satisfy
 \* the conclusion if it satisfies the premise
